@@ -134,3 +134,16 @@ def register_registry_shapes(reg):
     reg.shapes['CanContainImportsDocumentable'].fields.update({'_localNameToFullName_map': 'Map[Str,Str]'})
     reg.shapes['Function'].fields.update({'signature': 'Opt[Obj[Sig]]', 'overloads': 'Seq[Ref[FunctionOverload]]'})
     reg.shape('FunctionOverload', {})
+
+
+def register_docstring_shapes(reg):
+    reg.shape('ErrList', {'__items__': 'Seq[Ref[ParseError]]'})        # a Python list of ParseError shared with a parser
+    reg.shape('ParsedDocstring', {'fields': 'Seq[Ref[DocField]]', '_stan': 'Opt[Obj[Tag]]', '_summary': 'RefN[ParsedDocstring]',
+                                  '_compact': 'Bool'})
+    reg.shape('ParsedPlaintextDocstring', {'_text': 'Str', '_document': 'Opt[Obj[Document]]'}, bases=('ParsedDocstring',))
+    reg.shape('ParsedStanOnly', {'_fromstan': 'Obj[Tag]'}, bases=('ParsedDocstring',))
+    reg.shape('DocField', {})
+    reg.shapes['Options'].fields.update({'docformat': 'Str', 'processtypes': 'Bool', 'sidebartocdepth': 'Int'})
+    reg.shapes['Module'].fields.update({'_docformat': 'Opt[Str]'})
+    reg.shapes['Documentable'].fields.update({'parsed_docstring': 'RefN[ParsedDocstring]', 'parsed_summary': 'RefN[ParsedDocstring]',
+                                              })
